@@ -254,10 +254,11 @@ func init() {
 			"range-checked are checked NaN-safely and reach integer conversions only guarded (R-NANGUARD, R-F2I); the err/errmsg protocol: " +
 			"str2num/str2bool reset the globals before anything else and set them only on the failure edge, and no other function touches them " +
 			"(R-ERRPROTO); len/has/del/index use the rune view and the map representation (R-RUNES, R-MAPENC); the error that ends a run (exit, panic) is the " +
-			"one returned by Eval (R-YIELD error clause).",
+			"one returned by Eval (R-YIELD error clause); the message of test is a format only when operands follow it, str2bool decides on exactly the documented spellings (R-BUILTINSIG); " +
+			"repr prints a key bare exactly when IsIdent says so, and IsIdent is safe for keywords (R-IDENTKEY).",
 		NotDecided:  "Returned values and formatted text of the built-ins (value-level).",
 		Assumptions: []string{},
-		Rules:       []*Rule{ruleBuiltinSig, ruleNaNGuard, f2iRule("pkg/evaluator", 4), ruleErrProto, runesRule("pkg/evaluator", "stringVal", 4), ruleEvalMisc, ruleYield},
+		Rules:       []*Rule{ruleBuiltinSig, ruleNaNGuard, f2iRule("pkg/evaluator", 4), ruleErrProto, runesRule("pkg/evaluator", "stringVal", 4), ruleEvalMisc, ruleYield, ruleIdentKey},
 	})
 }
 
@@ -328,10 +329,11 @@ func init() {
 		Explanation: "Decides the structural clauses of canonical formatting: indentation changes are balanced on all paths and written as four spaces " +
 			"per level, comments are written through TrimSpace, number literals are printed in the only notation the lexer accepts (R-INDENTPAIR); " +
 			"`--check` compares the input with the formatter's own output and fails exactly on the unequal edge, and an unformatted file ends a " +
-			"multi-file run with a non-zero status (R-ATOMICWRITE W5–W7).",
-		NotDecided:  "Idempotence, blank-line policy, trailing whitespace in general, the final newline — properties of the produced text.",
+			"multi-file run with a non-zero status (R-ATOMICWRITE W5–W7); the blank line before a func and its leading comments is placed behind the statement that directly precedes them, " +
+			"which is what makes a second pass find it in place (R-BLANKBEFORE).",
+		NotDecided:  "Idempotence in general, the squeezing of runs of blank lines, trailing whitespace in general, the final newline — properties of the produced text.",
 		Assumptions: []string{},
-		Rules:       []*Rule{ruleIndentPair, ruleAtomicWrite, ruleNoInPlace},
+		Rules:       []*Rule{ruleIndentPair, ruleAtomicWrite, ruleNoInPlace, ruleBlankBefore},
 	})
 	Register(&Property{
 		ID: "C15",
